@@ -323,9 +323,14 @@ def inv_classes(g, limit=2):
         ids = [id(n) for n in c.node]
         if len(ids) < 3 or len(set(ids)) != len(ids):
             add('polygon', 'column %r has nodes %r' % (c.name, c.node)); continue
-        a = polygon_area([np.array(n.pos, dtype=float) for n in c.node])
-        if not a > 0: add('polygon', 'column %r has signed area %r' % (c.name, a))
-        elif abs(c.area - a) > 1e-9 * max(1.0, abs(a)): add('polygon', 'column %r caches area %r, its polygon has %r' % (c.name, c.area, a))
+        pts = [np.array(n.pos, dtype=float) for n in c.node]
+        a = polygon_area(pts)
+        # rounding error of the shoelace sum in doubles: ~ eps * n * (largest coordinate)^2 (a sliver far from the origin has an
+        # area far below that; its sign and last digits are noise, e.g. after a rotation)
+        noise = 8 * 2.3e-16 * len(pts) * max(1.0, max(float(np.max(np.abs(p))) for p in pts)) ** 2
+        if a < -noise or (abs(a) <= noise and not (c.area > -noise)): add('polygon', 'column %r has signed area %r' % (c.name, a))
+        elif abs(a) > noise and not a > 0: add('polygon', 'column %r has signed area %r' % (c.name, a))
+        elif abs(c.area - a) > 1e-9 * max(1.0, abs(a)) + noise: add('polygon', 'column %r caches area %r, its polygon has %r' % (c.name, c.area, a))
     if len(g.layerlist) > 1:
         for c in g.columnlist:
             if c.surface is None: add('num-layers', 'column %r has no surface elevation' % c.name); continue
